@@ -4,9 +4,15 @@
 // phases separated by quiescent barriers (all callers returned and no download goroutine left, decided on goroutine
 // dumps); the served set changes only at barriers. Within a phase 1–64 goroutines verify tokens of ten kinds while the
 // endpoint delivers / holds behind a gate / fails in six ways and the harness cancels chosen callers at chosen points.
-// Small schedules (<= 4 callers, <= 2 held downloads) are enumerated exhaustively, larger ones are sampled.
+// Small schedules (<= 4 callers, <= 2 held downloads) are enumerated exhaustively, larger ones are sampled. Callers can
+// also be PREEMPTED inside VerifySignature: the spans the key set opens are yield points (internal/sched), a caller is
+// held at its k-th one while others arrive / are cancelled / downloads are released (enumerated for two callers and
+// every k, sampled in the "preempt" family).
 // Oracles: (1) a phase checker written from the statement, (2) porcupine linearizability of the round history against
-// a nondeterministic cache model, (3) the race detector's log, (4) a state-based witness for waiters parked forever.
+// a nondeterministic cache model, (3) the race detector's log, (4) state-based witnesses: waiters parked forever, and
+// callers that are still blocked waiting for a download after their own context has ended.
+// No round can hang the run: a state in which nothing of the process can move and that the harness does not know ends the
+// round as inconclusive within milliseconds (round.go: frozen); the time watchdog is a backstop of seconds.
 //
 // Process layout: the parent spawns up to 16 copies of itself (C13_WORKER=k/n); worker k runs the cases at positions
 // k mod n of the case list one after the other and writes its statistics to a file which the parent merges (stats.go).
@@ -34,7 +40,10 @@ import (
 
 const enumBase = 1_000_000_000 // case indices >= enumBase are enumerated schedules
 
-const maxWatchdogsPerWorker = 3
+const (
+	maxWatchdogsPerWorker  = 3
+	maxLeftBehindPerWorker = 25
+)
 
 type enumFamily struct {
 	n, maxCancel, count, offset int
@@ -99,6 +108,7 @@ func doCase(run *ev.Run, st *stats, fams []enumFamily, idx int64) {
 		st.Eval()
 		last := rr.Phases[len(rr.Phases)-1]
 		if last.Frozen != "" {
+			st.LeftBehind++
 			st.Inconclusive("frozen: nothing could move in a state the harness does not know")
 			st.Count("frozen_rounds", spec.Family)
 			st.SampleKind("frozen:"+spec.Family, map[string]any{"case": idx, "where": last.Frozen, "spec": spec})
@@ -107,6 +117,14 @@ func doCase(run *ev.Run, st *stats, fams []enumFamily, idx int64) {
 			st.Watchdogs++
 		}
 		return
+	}
+	for _, ph := range rr.Phases {
+		for _, c := range ph.Calls {
+			if c.NeverReturned {
+				st.LeftBehind++ // (goroutines stay behind; every later dump of this process pays for them)
+				break
+			}
+		}
 	}
 	var all []finding
 	maxCallers, calls := 0, 0
@@ -245,6 +263,13 @@ func workerMain(run *ev.Run, fams []enumFamily, nEnum, nRandom int, spec string)
 	}
 	for p := k; p < nEnum+nRandom; p += n {
 		idx := caseAt(p, nEnum)
+		if st.LeftBehind >= maxLeftBehindPerWorker && st.LeftBehind*4 > st.Rounds {
+			// more than a quarter of this worker's rounds ended with calls that never return (frozen, or a deadlock that was
+			// reported): each leaves goroutines behind that every later goroutine dump pays for
+			st.Eval()
+			st.Inconclusive("skipped: too many of this worker's rounds left blocked goroutines behind")
+			continue
+		}
 		if st.Watchdogs >= maxWatchdogsPerWorker {
 			// every expiry costs `watchdog`; a tree on which rounds keep running into it is not going to be decided by
 			// waiting for the remaining ones
@@ -285,15 +310,18 @@ func main() {
 	if spec := os.Getenv("C13_WORKER"); spec != "" {
 		workerMain(run, fams, nEnum, nRandom, spec)
 	}
-	run.SetRule("one evaluation = one VerifySignature call judged by the phase checker; rounds = fresh remote key set, 2-5 phases separated by quiescent barriers, 1-64 concurrent callers per phase, gated or free-running downloads; plus every interleaving of arrive/cancel/release for <= 4 callers and <= 2 held downloads; distinct = distinct vectors (phase mode, cached set, served set, token kind, reference class vs cache, reference class vs served set, cancel point, role owner/joiner/none, overlapping download classes, outcome, SkipRemoteCheck)")
+	run.SetRule("one evaluation = one VerifySignature call judged by the phase checker; rounds = fresh remote key set, 2-5 phases separated by quiescent barriers, 1-64 concurrent callers per phase, gated or free-running downloads; plus every interleaving of arrive/cancel/release for <= 4 callers and <= 2 held downloads, plus two callers with the first one held at each of its yield points inside VerifySignature while the second arrives (x cancel of either / release order); distinct = distinct vectors (phase mode, cached set, served set, token kind, reference class vs cache, reference class vs served set, cancel point, role owner/joiner/none, overlapping download classes, outcome, SkipRemoteCheck, yield point the caller was held at)")
 	run.Assume("the fake endpoint aborts a held request when the request context ends, as net/http's transport does",
 		"a well-formed download that completed before a barrier is in the cache after the barrier (the barrier waits for the download goroutine to disappear)",
 		"grey (counted, never failed): own context cancelled before the call returned; retired keys until a barrier after a successful download; kid-less tokens among several candidate keys; header kid naming another served key; keys published with use=enc; calls that may have been handed a scripted faulty download; kid-less tokens under SkipRemoteCheck",
-		"a download aborted by ANOTHER caller's cancellation does not excuse a failure (that is the clause 'one caller's cancellation does not fail another caller')")
+		"a download aborted by ANOTHER caller's cancellation does not excuse a failure (that is the clause 'one caller's cancellation does not fail another caller')",
+		"ending a context (cancel() / closing Done) makes every goroutine waiting on it or on a standard context derived from it runnable before it returns: a caller seen blocked in keysFromRemote's select or at the endpoint in "+fmt.Sprint(confirmSnapshots)+" consecutive snapshots taken after that, while no other goroutine of the process could move, does not wait on its own context (a library that polls its context on a timer of more than ~10 ms inside that select would be misjudged)",
+		"a cancelled caller that returns although its context ended is grey unless that witness exists (cancellation may race with the completion of the download)")
 	run.Mandatory(mandatory...)
 	run.Mandatory("race-detector:enabled")
 	if rc := run.ReplayCase(); rc >= 0 {
 		// a replay decides only the replayed case; coverage obligations do not apply
+		sched.Install() // the library's spans are the yield points of the "arrive-held" schedules
 		st := newStats()
 		doCase(run, st, fams, rc)
 		st.into(run)
@@ -402,7 +430,11 @@ func main() {
 	total.into(run)
 	enumDesc := []map[string]int{}
 	for _, f := range fams {
-		enumDesc = append(enumDesc, map[string]int{"callers": f.n, "max_cancelled_callers": f.maxCancel, "schedules": f.count})
+		d := map[string]int{"callers": f.n, "max_cancelled_callers": f.maxCancel, "schedules": f.count}
+		if f.held {
+			d = map[string]int{"callers": f.n, "first_caller_held_at_yield_point_0_to": maxHoldK, "variants_cancel_or_release_order": enumHeldVariants, "schedules": f.count}
+		}
+		enumDesc = append(enumDesc, d)
 	}
 	run.Extra("enumerated_schedules", enumDesc)
 	run.Extra("random_rounds", nRandom)
